@@ -275,14 +275,13 @@ type vc35World struct {
 	emptiedBuilds    int64
 	builds           []string // last message constructions, for the stall witness
 
+	sendStarts atomic.Int64 // sendMessage invocations that reached the sender (SupportsHave calls)
 	senderInit atomic.Bool
 	resetCh    chan struct{}
 	resetOnce  sync.Once
 
 	latCount atomic.Int64
 	barMu    sync.Mutex
-	dbgMu    sync.Mutex
-	dbgLog   []string
 
 	intent  []uint64 // per CID index, written only by the owner's goroutine
 	tainted []bool
@@ -331,7 +330,6 @@ type vc35Sender struct{ w *vc35World }
 func (s *vc35Sender) SendMsg(_ context.Context, m bsmsg.BitSwapMessage) error {
 	w := s.w
 	vc35Perturb(w.loopR, w.sendDelay)
-	w.dbg("SendMsg")
 	entries := m.Wantlist() // copies the entries: the queue re-uses the message object
 	full := m.Full()
 	w.mu.Lock()
@@ -348,7 +346,7 @@ func (s *vc35Sender) Reset() error {
 
 func (s *vc35Sender) SupportsHave() bool {
 	w := s.w
-	w.dbg("SupportsHave")
+	w.sendStarts.Add(1)
 	w.senderInit.Store(true)
 	w.mu.Lock()
 	if w.busyOpen == 0 {
@@ -423,7 +421,6 @@ func (m *vc35TapMsg) Remove(k cid.Cid) { // called with mq.wllock held: no pause
 
 func (m *vc35TapMsg) Reset(full bool) {
 	w := m.w
-	w.dbg("msg.Reset")
 	w.mu.Lock()
 	for k, n := range m.removed {
 		w.removes += int64(n)
@@ -511,7 +508,6 @@ func vc35Case(k *vlib.Case, st vc35Stratum) {
 		for {
 			select {
 			case e := <-events:
-				w.dbg("event %d", e)
 				if e == latenciesRecorded {
 					w.latCount.Add(1)
 				}
@@ -662,21 +658,6 @@ func (w *vc35World) produce(ph, p int, ops []vc35Op) {
 	}
 }
 
-func (w *vc35World) dbg(f string, a ...any) {
-	w.dbgMu.Lock()
-	w.dbgLog = append(w.dbgLog, fmt.Sprintf("%d:", w.seq.Load())+fmt.Sprintf(f, a...))
-	if len(w.dbgLog) > 60 {
-		w.dbgLog = w.dbgLog[1:]
-	}
-	w.dbgMu.Unlock()
-}
-
-func (w *vc35World) dbgDump() string {
-	w.dbgMu.Lock()
-	defer w.dbgMu.Unlock()
-	return strings.Join(w.dbgLog, " ; ")
-}
-
 // barrier returns after the run loop has completed everything it had dequeued
 // before the call: a response for a CID outside the pool is queued and its
 // latenciesRecorded event awaited (the run loop is sequential).
@@ -684,8 +665,6 @@ func (w *vc35World) barrier() {
 	w.barMu.Lock()
 	defer w.barMu.Unlock()
 	before := w.latCount.Load()
-	w.dbg("barrier start lat=%d", before)
-	defer w.dbg("barrier end")
 	w.mq.ResponseReceived([]cid.Cid{w.dum})
 	for w.latCount.Load() == before {
 		time.Sleep(100 * time.Microsecond)
@@ -699,34 +678,41 @@ func (w *vc35World) barrier() {
 //
 // While work is pending the loop also looks for a stall, again from state:
 // with no producer running, only the run loop can schedule the next send, and
-// it does so through mq.outgoingWork. If across two consecutive barriers (the
-// run loop was back at its select both times) the pending work and the number
-// of sent messages are unchanged and no signal is queued, nothing will ever
-// send the pending work (short of the 15 s rebroadcast timer): reported as
-// class stalled-pending-work, returns false.
+// it does so through mq.outgoingWork. Three observations o1,o2,o3 are taken,
+// each after a barrier (so the run loop was back at its select between any
+// two of them): {pending work, messages sent, signal queued, sendMessage
+// invocations that reached the sender}. If all three are equal with work
+// pending and no signal queued, then no send started between o1 and o3; the
+// signal cannot have been consumed just before o2 either, because the send it
+// starts would have reached the sender before the run loop could answer the
+// third barrier. So at o2 nothing was in flight and nothing was scheduled:
+// nothing will send the pending work (short of the 15 s rebroadcast timer).
+// Reported as class stalled-pending-work, returns false.
 func (w *vc35World) quiesce() bool {
-	type obs struct{ pending, msgs, signal int }
+	type obs struct {
+		pending, msgs, signal int
+		starts                int64
+	}
 	look := func() obs {
 		w.mu.Lock()
 		n := len(w.msgs)
 		w.mu.Unlock()
-		return obs{w.mq.pendingWorkCount(), n, len(w.mq.outgoingWork)}
+		return obs{w.mq.pendingWorkCount(), n, len(w.mq.outgoingWork), w.sendStarts.Load()}
 	}
 	for {
 		for w.mq.pendingWorkCount() != 0 {
 			w.barrier()
 			o1 := look()
-			w.dbg("o1 %+v", o1)
 			w.barrier()
 			o2 := look()
-			w.dbg("o2 %+v", o2)
-			if o1 == o2 && o1.pending != 0 && o1.signal == 0 {
+			w.barrier()
+			o3 := look()
+			if o1 == o2 && o2 == o3 && o2.pending != 0 && o2.signal == 0 {
 				w.mq.wllock.Lock()
 				d := fmt.Sprintf("pending peer wants=%d, pending broadcast wants=%d, queued cancels=%d; messages sent so far=%d; outgoingWork signal queued=%v",
 					w.mq.peerWants.pending.Len(), w.mq.bcstWants.pending.Len(), w.mq.cancels.Len(), o1.msgs, o1.signal != 0)
 				w.mq.wllock.Unlock()
 				class := "stalled-pending-work"
-				d += "; DEBUG " + w.dbgDump()
 				d += "; run loop goroutine: " + vc35RunLoopStack()
 				w.mu.Lock()
 				d += fmt.Sprintf("; logical time now=%d; last constructions: %s", w.seq.Load(), strings.Join(w.builds, " | "))
